@@ -28,9 +28,11 @@ def rule_tuple(r):
     freq = r.get('freq', 'repeated')
     if r['type'] == 'ode':
         return ('ode', {'equation': EX.render(EX.totuple(r['rhs'])), 'target': r['target']})
-    if r['type'] == 'additive':
-        return ('additive', {'equation': '%s = %s' % (r['target'], ' + '.join(r['sources']))}, freq)
-    return ('assignment', {'equation': '%s = %s' % (r['target'], EX.render(EX.totuple(r['rhs'])))}, freq)
+    body = {'equation': '%s = %s' % (r['target'], ' + '.join(r['sources']))} if r['type'] == 'additive' else \
+        {'equation': '%s = %s' % (r['target'], EX.render(EX.totuple(r['rhs'])))}
+    if freq == 'repeated':
+        return (r['type'], body)          # the default frequency is spelled by omission (2-tuple)
+    return (r['type'], body, freq)
 
 
 def to_model(spec, cls=None, **kw):
